@@ -244,3 +244,66 @@ Theorem C01_refinement :
         (forall b, decided s = Some b -> TM.decided T i = Some b).
 Proof. exact Proofs_ConsensusNet2.refinement. Qed.
 Print Assumptions C01_refinement.
+
+(* ---- kernel links (Link_C01.v).  hasOverTwoThirds, overTwoThirdsDecision
+   (consensus/voteset.go) and enoughVote (consensus/commitvotelist.go) are re-generated
+   from the Go source on every run (tools/go2coq).  For every count c and every
+   validator number n a Go slice can have (fits_int n: n <= 2^62-1) the threshold test
+   of the CODE is the quorum test 2n < 3c of the SPECIFICATION (TM.over23, behind
+   TM.quorum / polka / qprecommit and the over23 of the engines in Part B) on which the
+   agreement theorems above rest ---- *)
+From Goloop Require Import Link_C01.
+
+Theorem C01_kernel_threshold_is_spec_quorum : forall c n : nat, fits_int n ->
+  (hasOverTwoThirds (Z.of_nat c) (Z.of_nat n) = true <-> (2 * n < 3 * c)%nat) /\
+  (overTwoThirdsDecision (Z.of_nat c) (Z.of_nat n) = true <-> (2 * n < 3 * c)%nat) /\
+  (n <> 0%nat -> (enoughVote (Z.of_nat c) (Z.of_nat n) = true <-> (2 * n < 3 * c)%nat)).
+Proof. exact code_threshold_is_spec_quorum. Qed.
+Print Assumptions C01_kernel_threshold_is_spec_quorum.
+
+Theorem C01_kernel_hasOverTwoThirds : forall c n : nat, fits_int n ->
+  TM.over23 c n = hasOverTwoThirds (Z.of_nat c) (Z.of_nat n).
+Proof. exact spec_over23_is_hasOverTwoThirds. Qed.
+Print Assumptions C01_kernel_hasOverTwoThirds.
+
+Theorem C01_kernel_overTwoThirdsDecision : forall c n : nat, fits_int n ->
+  TM.over23 c n = overTwoThirdsDecision (Z.of_nat c) (Z.of_nat n).
+Proof. exact spec_over23_is_overTwoThirdsDecision. Qed.
+Print Assumptions C01_kernel_overTwoThirdsDecision.
+
+Theorem C01_kernel_enoughVote : forall c n : nat, n <> 0%nat -> fits_int n ->
+  TM.over23 c n = enoughVote (Z.of_nat c) (Z.of_nat n).
+Proof. exact spec_over23_is_enoughVote. Qed.
+Print Assumptions C01_kernel_enoughVote.
+
+(* the quorum of precommits that a decision needs (C01_spec_decide_needs_quorum) is the
+   test getOverTwoThirdsRoundDecisionDigest makes on the counter of that block *)
+Theorem C01_kernel_qprecommit : forall (n : nat) sp r v, fits_int n ->
+  TM.qprecommit n sp r v
+  = overTwoThirdsDecision
+      (Z.of_nat (TM.countn (fun k => TM.has_vote sp k r TM.Precommit v) n)) (Z.of_nat n).
+Proof. exact qprecommit_is_overTwoThirdsDecision. Qed.
+Print Assumptions C01_kernel_qprecommit.
+
+Theorem C01_kernel_polka : forall (n : nat) sp r v, fits_int n ->
+  TM.polka n sp r v
+  = overTwoThirdsDecision
+      (Z.of_nat (TM.countn (fun k => TM.has_vote sp k r TM.Prevote v) n)) (Z.of_nat n).
+Proof. exact polka_is_overTwoThirdsDecision. Qed.
+Print Assumptions C01_kernel_polka.
+
+(* the over23 of the engines (C01_finalize_needs_quorum) is the same predicate *)
+Theorem C01_kernel_engine_over23 : forall c n : nat, fits_int n ->
+  over23 c n = TM.over23 c n /\
+  over23 c n = hasOverTwoThirds (Z.of_nat c) (Z.of_nat n) /\
+  over23 c n = overTwoThirdsDecision (Z.of_nat c) (Z.of_nat n).
+Proof.
+  exact (fun c n H => conj (engine_over23_is_spec c n)
+           (conj (engine_over23_is_hasOverTwoThirds c n H)
+                 (engine_over23_is_overTwoThirdsDecision c n H))).
+Qed.
+Print Assumptions C01_kernel_engine_over23.
+
+Theorem C01_kernel_params : Link_C01.kernel_params_pinned.
+Proof. exact Link_C01.kernel_params_ok. Qed.
+Print Assumptions C01_kernel_params.
